@@ -188,15 +188,35 @@ def small_scope(ctx):
     return hs
 
 
+def stack_scope(ctx):
+    """decorator stacks on the persist task: {persist marker, @task, functools.wraps pass-through} in every order × an edit of a
+    dependency / of the product × plain or forced build, each followed by a plain build"""
+    hs = []
+    n = 0
+    for below in (False, True):
+        for wrap in ("top", "mid", "bottom"):
+            for deco in (True, False):
+                for ed in (["write", 100, 8], ["write", 111, 4242]):
+                    n += 1
+                    spec = {"tasks": [
+                        {"id": 0, "module": 0, "deps": [100], "prods": [110], "after": [], "marks": [], "beh": "ok", "style": "default"},
+                        {"id": 1, "module": 1, "deps": [110], "prods": [111], "after": [], "marks": ["persist"], "beh": "ok",
+                         "style": ["default", "annotated", "kwargs"][n % 3], "marks_below": below, "wrap": wrap, "force_decorator": deco}],
+                        "versions": {"0": 0, "1": 0}, "inputs": {"100": 7}}
+                    hs.append({"tag": "stack", "spec": spec, "steps": [["build", {}], ed, ["build", [{}, {"force": True}][n % 2]], ["build", {}]]})
+    return hs
+
+
 def histories(ctx):
     rng = ctx.rng
-    hs = small_scope(ctx)
+    hs = small_scope(ctx) + stack_scope(ctx)
     for i in range(ctx.scale(60, 900)):
         spec = engine.gen_spec(rng, nt=(2, 6), after_p=0.25, after_needs_prods=True, user_markers=True, prodless_p=0.15,
                                behs=("ok",) * 7 + ("early",),
                                marks=(("persist", 0.45), ("skip", 0.06), ("skipif_true", 0.04), ("skipif_false", 0.08)))
         if not any("persist" in t["marks"] for t in spec["tasks"]):
             rng.choice(spec["tasks"])["marks"].append("persist")
+        engine.vary_decorators(rng, spec)
         ins = {int(k) for k in spec["inputs"]}
         for t in spec["tasks"]:           # some dependencies on inputs are hashed Python values instead of files
             hv = [d for d in t["deps"] if d in ins and rng.random() < 0.3]
